@@ -317,6 +317,10 @@ def run_case(case: dict) -> Result:
     bad6 = _copy_field_then_claim(root, text, classes)
     if bad6:
         return _done(res.bad(*bad6), classes)
+    # (7) a copy of a released comment given to a model: whoever holds a comment owns it, and its flag says so
+    bad7 = _assign_copied_comment(root, text, classes)
+    if bad7:
+        return _done(res.bad(*bad7), classes)
     # program of attribution calls: uniqueness after every call
     for op in case.get('ops', []):
         try:
@@ -348,6 +352,32 @@ def run_case(case: dict) -> Result:
             elif omap(cp) != omap(root):
                 res.bad('copy-attribution-differs', f'a deep copy attributes comments differently: {_mdiff(omap(root), omap(cp))} in {text!r}')
     return _done(res, classes)
+
+
+def _assign_copied_comment(root: Any, text: str, classes: set) -> Optional[tuple]:
+    import copy
+    for m in commentable(root):
+        if vars(m).get('_trailing_comment') is None or vars(m).get('_leading_comment') is not None:
+            continue
+        note = m.unclaim_trailing_comment()
+        cp = copy.deepcopy(note)          # an unowned comment's copy (flag: not claimed)
+        m.claim_trailing_comment()
+        try:
+            m.raw_leading_comment = cp    # same indentation class as the model: it was its trailing comment
+        except common.REFUSAL:
+            continue
+        classes.add('stage:copied-comment')
+        what = f'{type(m).__name__}.raw_leading_comment = deepcopy(its released trailing comment)'
+        bad = check_unique(root, False, 'after ' + what)
+        if bad:
+            return ('unique:' + bad[0] + ':copied-comment', bad[1])
+        root.auto_claim_comments()
+        bad = check_unique(root, False, 'after ' + what + ' and auto_claim_comments()')
+        if bad:
+            return ('unique:' + bad[0] + ':copied-comment-auto', bad[1])
+        m.raw_leading_comment = None
+        break
+    return None
 
 
 def _copy_field_then_claim(root: Any, text: str, classes: set) -> Optional[tuple]:
